@@ -152,6 +152,7 @@ pub fn run(ctx: &Ctx) -> i32 {
             if !multi_ret {
                 if let Some((cfg2, _)) = build(&mut acc) {
                     let s1 = GraphView::of(&cfg2).snapshot();
+                    verif_hooks::dispose(&cfg2);
                     acc.count("reproducibility_compared", 1);
                     if s0 != s1 {
                         let d = first_diff(&s0, &s1);
@@ -226,6 +227,7 @@ pub fn run(ctx: &Ctx) -> i32 {
                     }
                 }
             }
+            verif_hooks::dispose(&cfg);
             acc.note("shapes", shape_name);
             acc.nontrivial.insert(hash64(&text));
             if k == 0 && shard == 0 {
